@@ -21,7 +21,7 @@ CHECKS = {
             'Trusts the reference classification vmc.sem.kind and the restated constraint kinds. One known finding ([0..0] single-child relation has no class).', '3 C03'),
     'C18': ('exhaustive enumeration of all constraint expression trees of depth<=2 (8 operators, 2 / 3 names) plus depth-3 spines and an arithmetic/aggregate alphabet on real Constraint objects; equivalences decided by complete truth tables',
             'Every tree up to the bound is turned into a real Constraint; every predicate, the left/right extraction and split_constraint run on it; soundness is decided by complete truth tables, and the AST is snapshotted (structure and node identity) before and after.',
-            'Trusts vmc.sem.ev. Known findings: XOR / EQUIVALENCE handling of flamapy.core simplify_formula (dependency).', '3 C18'),
+            'Trusts vmc.sem.ev (the XOR / EQUIVALENCE defects of flamapy.core simplify_formula found by this check are repaired in /repo, see KNOWN_FINDINGS.txt).', '3 C18'),
     'C16': ('explicit-state enumeration of the complete structure space, parametric families and a complete sweep of the shipped corpus, six real operations against definitions evaluated on the shadow tree / an independent XML walker',
             'Every tree up to the bound (incl. the root-only model), chains/wide groups/combs/binary trees beyond it, and every shipped FaMa/Betty file are analysed by the six operations; each result is compared with the definition computed on the shadow; ancestors for every feature.',
             'Trusts vmc.lang.fama (independent ElementTree walker) for corpus files. Random larger models are replaced by deterministic families.', '3 C16'),
@@ -78,6 +78,11 @@ def main():
         if pid not in CHECKS:
             continue
         tech, text, note, ref = CHECKS[pid]
+        tech += ('; plus, for every property, exhaustive depth-2 histories (vmc.hist): batches of picked cases of each of the twenty '
+                 'drivers, and every ill-formed variant of a sentinel, followed by sentinel cases of this property in a forked child; '
+                 'constraint graphs with shared Node objects; object-reuse histories of readers, writers and operations')
+        text += (' Histories: the sentinel cases are judged before and after every prefix (verdict and recorded outputs must not change); '
+                 'see DESIGN.md 7.3b.')
         checks.append({
             'property_id': pid,
             'quick_cmd': '/venv/bin/python -m vmc.run --property %s --tier quick' % pid,
